@@ -484,8 +484,14 @@ func runOne(line string) (out string) {
 		return "BAD_CASE"
 	}
 	// NewMetricAggregator(percentThresholds, counter, gauge, set, timer, disabled, histogramLimit)
-	aggr := statsd.NewMetricAggregator([]float64{90}, time.Duration(ic), time.Duration(ig), time.Duration(is), time.Duration(it),
-		gostatsd.TimerSubtypes{}, math.MaxUint32)
+	// ... reached the way the server reaches it: the Server's fields, its stand-alone sink and aggregator factory
+	srv := &statsd.Server{PercentThreshold: []float64{90}, ExpiryIntervalCounter: time.Duration(ic), ExpiryIntervalTimer: time.Duration(it),
+		ExpiryIntervalGauge: time.Duration(ig), ExpiryIntervalSet: time.Duration(is), HistogramLimit: math.MaxUint32,
+		MaxWorkers: 1, MaxConcurrentEvents: 1, FlushInterval: time.Second}
+	aggr, serr := srv.VerifStandaloneAggregator()
+	if serr != nil {
+		return "CONFIG_ERROR " + serr.Error()
+	}
 	var now int64
 	aggr.VerifSetNow(func() time.Time { return time.Unix(0, now) })
 	var a statsd.Aggregator = aggr
